@@ -6,7 +6,7 @@
    theorems are about.  Definitions only. *)
 From Coq Require Import List NArith ZArith.
 From Bignums Require Import BigN.
-From AHK Require Import Lib.Res Lib.ByteStr Model.Sha512 Model.Srp Model.SrpCases.
+From AHK Require Import Lib.Res Lib.ByteStr Model.Sha512 Model.Srp Model.SrpServer Model.SrpCases.
 Import ListNotations.
 
 Fixpoint bpowm_pos (b : BigN.t) (e : positive) (m : BigN.t) : BigN.t :=
@@ -37,6 +37,10 @@ Definition hap_client (PM : Z -> Z -> Z -> Z) :=
 Definition hap_server_x (PM : Z -> Z -> Z -> Z) :=
   server_x sha512 PM N3072 G3072 HK_KEY_LENGTH.
 Definition hap_server := server sha512 N3072 G3072 HK_KEY_LENGTH.
+Definition PROOF_LENGTH : nat := 64.
+(* aiohomekit.crypto.srp.SrpServer in the HAP group (guard: see Model/SrpServer.v) *)
+Definition hap_srpserver (PM : Z -> Z -> Z -> Z) :=
+  srpserver sha512 PM N3072 G3072 K_LITERAL HGROUP_BYTES HK_KEY_LENGTH PROOF_LENGTH.
 
 (* ---------------------------------------------------- correspondence entry points
    byte strings travel as (length, big-endian value); results as numbers
@@ -57,3 +61,21 @@ Definition server_case (I P salt : N * N) (b : N) (A_b M1_b : N * N) : list byte
   let r := hap_server_x powm_fast (bs I) (bs P) (bs salt) (Z.of_N b) (bs A_b) (bs M1_b) in
   [s_B_b r; s_K r; s_M1 r; [b2n (s_ok r)]; s_M2 r].
 
+
+(* SrpServer: guard variant, whether set_client_public_key gets an int, username, setup code, salt bytes,
+   ephemeral b, the client's public key bytes, candidate client proofs (the first is also fed to
+   get_proof_bytes / get_proof).
+   Answer: [[1]; B_b; K; accept bits; M2; get_proof as 64 bytes or [999]]; [[2]] = rejected by the guard;
+   [[0]] = the code raises. *)
+Definition srpserver_case (guard int_path : bool) (I P salt : N * N) (b : N) (A_b : N * N) (M1s : list (N * N))
+  : list bytes :=
+  let A_bytes := bs A_b in
+  let pub := if int_path then inl (from_bytes A_bytes) else inr A_bytes in
+  match hap_srpserver powm_fast guard (bs I) (bs P) (bs salt) (Z.of_N b) pub (bs (hd (0, 0) M1s)) with
+  | Ok r => [[1]; p_B_b r; p_K r;
+             map (fun m => b2n (Z.eqb (from_bytes (bs m)) (from_bytes (p_M1 r)))) M1s;
+             p_M2 r;
+             match p_M2_int r with Ok z => be_enc PROOF_LENGTH (Z.to_N z) | _ => [999] end]
+  | Err _ => [[2]]
+  | _ => [[0]]
+  end.
